@@ -53,7 +53,7 @@ Definition cmd_dbg (r : cmd_result) : dbg :=
 Lemma run_command_init env c d st : d_init (cmd_dbg (run_command env c d st)) = d_init d.
 Proof.
   unfold run_command.
-  destruct c as [ | | | | | |l|l v|m|m| | | | | | |m|m]; cbn [cmd_dbg];
+  destruct c as [ | | | | | |l|l v|m|m| | | | | | |m|m| ]; cbn [cmd_dbg];
     repeat break_match; cbn [cmd_dbg];
     repeat match goal with
     | H : resolve_location _ _ _ _ = _ |- _ => apply resolve_location_init in H; destruct H as (?&?&?)
@@ -186,7 +186,7 @@ Proof.
     - destruct (add_address_offset _ _ off); inversion H; subst; [reflexivity|eexists; reflexivity].
     - destruct (sym_get _ name); [|inversion H; subst; eexists; reflexivity].
       destruct (add_address_offset _ _ off); inversion H; subst; [reflexivity|eexists; reflexivity]. }
-  destruct c as [ | | | | | |l|l v|m0|m0| | | | | | |m0|m0]; cbn in Hw; try discriminate;
+  destruct c as [ | | | | | |l|l v|m0|m0| | | | | | |m0|m0| ]; cbn in Hw; try discriminate;
     try (destruct l as [r|m0]; [discriminate|]); inversion Hw; subst m0; cbn [run_command];
     destruct (resolve_location env (set_icount d 0) st m) as [[a|] d1] eqn:E;
     pose proof (Hres _ _ eq_refl) as (Hb & Hs & He).
@@ -231,7 +231,7 @@ Qed.
 Definition readonly_cmd (c : cmd) : Prop :=
   match c with
   | CStepOver | CStepInto _ | CStepOut | CContinue | CRegisters | CPrint _ | CAssembly _ | CEcho _
-  | CHelp | CBreakList | CBreakAdd _ | CBreakRemove _ | CQuit => True
+  | CHelp | CBreakList | CBreakAdd _ | CBreakRemove _ | CQuit | CBad => True
   | _ => False
   end.
 
@@ -243,7 +243,7 @@ Lemma run_command_readonly env c d st : readonly_cmd c ->
   end.
 Proof.
   intros H. unfold run_command.
-  destruct c as [ | | | | | |l|l v|m|m| | | | | | |m|m]; cbn in H; try contradiction;
+  destruct c as [ | | | | | |l|l v|m|m| | | | | | |m|m| ]; cbn in H; try contradiction;
     repeat break_match; auto.
 Qed.
 
@@ -253,7 +253,7 @@ Theorem inspection_changes_nothing env c d st :
   exists d', run_command env c d st = CmdNone d' st /\ d_bps d' = d_bps d /\ d_status d' = d_status d.
 Proof.
   intros H. unfold run_command.
-  destruct c as [ | | | | | |l|l v|m|m| | | | | | |m|m]; try contradiction;
+  destruct c as [ | | | | | |l|l v|m|m| | | | | | |m|m| ]; try contradiction;
     repeat break_match;
     repeat match goal with
     | H : resolve_location _ _ _ _ = _ |- _ => apply resolve_location_init in H; destruct H as (?&?&?)
@@ -401,15 +401,32 @@ Qed.
 (* ------------------------------------------------------------------ *)
 (** * Progress (C16) *)
 
+Lemma dispatch_none_wait d st d2 : dispatch_status d st = (None, d2) -> d_status d2 = WaitForAction.
+Proof.
+  unfold dispatch_status. intros H. destruct (d_status d) eqn:Es; repeat break_match_hyp H; inversion H; subst;
+    try reflexivity; exact Es.
+Qed.
+
+Lemma cmd_cost_le c : cmd_cost c <= 1.
+Proof. destruct c; cbn; lia. Qed.
+
+(** Rejected lines are free, but a call of the command reader that was entered (status WaitForAction)
+    ends with a command, or the end of the input, being counted. *)
 Lemma wait_loop_reads env script : forall d st n,
+  d_status d = WaitForAction ->
   match wait_loop env script d st n with
   | NaAction _ _ _ _ n' | NaStop _ _ _ n' => n + 1 <= n'
   end.
 Proof.
-  induction script as [|c rest IH]; intros d st n; cbn [wait_loop]; [lia|].
-  destruct (run_command env c d st) as [a d1 st1|d1 st1|r d1]; try lia.
-  destruct (dispatch_status d1 st1) as [[a|] d2]; [lia|].
-  specialize (IH d2 st1 (n + 1)). destruct (wait_loop env rest d2 st1 (n + 1)); lia.
+  induction script as [|c rest IH]; intros d st n Hs; cbn [wait_loop]; [lia|].
+  destruct (N.eq_dec (cmd_cost c) 1) as [Hc|Hc].
+  - rewrite Hc.
+    destruct (run_command env c d st) as [a d1 st1|d1 st1|r d1]; try lia.
+    destruct (dispatch_status d1 st1) as [[a|] d2] eqn:E; [lia|].
+    specialize (IH d2 st1 (n + 1) (dispatch_none_wait _ _ _ E)). destruct (wait_loop env rest d2 st1 (n + 1)); lia.
+  - assert (c = CBad) by (destruct c; cbn in Hc; congruence). subst c.
+    cbn [run_command cmd_cost]. unfold dispatch_status. cbn [say set_icount d_status]. rewrite Hs.
+    rewrite N.add_0_r. apply IH. cbn [say set_icount d_status]. exact Hs.
 Qed.
 
 (** An iteration that neither executes an instruction nor reads a command does not exist. *)
@@ -439,7 +456,7 @@ Proof.
     rewrite Hhalt, Hb.
     destruct (W <=? s_pc st + 1); [exact I|].
     destruct (execute _ _ _); try exact I. lia.
-  - pose proof (wait_loop_reads env script d3 st 0) as K.
+  - pose proof (wait_loop_reads env script d3 st 0 (dispatch_none_wait _ _ _ E)) as K.
     destruct (wait_loop env script d3 st 0) as [a d4 st4 rest n|r d4 rest n].
     + destruct a; try exact I; try lia.
       repeat break_match; try exact I; lia.
@@ -467,9 +484,10 @@ Lemma wait_loop_script env script : forall d st n,
   end.
 Proof.
   induction script as [|c rest IH]; intros d st n; cbn [wait_loop length]; [lia|].
+  pose proof (cmd_cost_le c) as Hc.
   destruct (run_command env c d st) as [a d1 st1|d1 st1|r d1]; try lia.
   destruct (dispatch_status d1 st1) as [[a|] d2]; [lia|].
-  specialize (IH d2 st1 (n + 1)). destruct (wait_loop env rest d2 st1 (n + 1)); lia.
+  specialize (IH d2 st1 (n + cmd_cost c)). destruct (wait_loop env rest d2 st1 (n + cmd_cost c)); lia.
 Qed.
 
 (* ------------------------------------------------------------------ *)
@@ -544,7 +562,7 @@ Qed.
 Lemma run_command_sorted env c d st : bp_sorted (d_bps d) -> bp_sorted (d_bps (cmd_dbg (run_command env c d st))).
 Proof.
   intros H. unfold run_command.
-  destruct c as [ | | | | | |l|l v|m|m| | | | | | |m|m]; cbn [cmd_dbg];
+  destruct c as [ | | | | | |l|l v|m|m| | | | | | |m|m| ]; cbn [cmd_dbg];
     repeat break_match; cbn [cmd_dbg];
     repeat match goal with
     | H : resolve_location _ _ _ _ = _ |- _ => apply resolve_location_init in H; destruct H as (?&?&?)
@@ -792,7 +810,10 @@ Theorem tick_resume env c rest d st d1 d2 :
 Proof.
   intros Hs Hh Hr Hc Hd. unfold tick, next_action. unfold runnable in Hr. rewrite Hr. cbv beta iota zeta.
   assert (Hs0 : d_status (check_interrupts d st) = WaitForAction) by (apply check_interrupts_wait; exact Hs).
-  unfold dispatch_status at 1. rewrite Hs0. cbn [wait_loop]. rewrite Hc, Hd.
+  assert (Hcost : cmd_cost c = 1).
+  { destruct c; try reflexivity. exfalso. cbn [run_command] in Hc. inversion Hc; subst d1.
+    unfold dispatch_status in Hd. cbn [say set_icount d_status] in Hd. rewrite Hs0 in Hd. discriminate. }
+  unfold dispatch_status at 1. rewrite Hs0. cbn [wait_loop]. rewrite Hc, Hd, Hcost.
   rewrite Hh, Hr. destruct (runnable_facts st Hr) as (_ & _ & Hw). rewrite Hw.
   unfold after_exec1, vm_step. destruct (execute _ _ _); reflexivity.
 Qed.
